@@ -1,4 +1,4 @@
-"""Behaviour outside the listed properties: CategoricalColumnTransformer, variable window radii."""
+"""Behaviour outside the listed properties: CategoricalColumnTransformer, variable window radii, sparse_collapse."""
 import numpy as np
 
 from ._light import light
@@ -52,3 +52,24 @@ def variable_radii(item):
             if np.any(np.diff(r[:k][order]) > 0):
                 fails.append({"what": "a more frequent token got a larger radius", "freq": freq.tolist(), "r": r.tolist()})
     return {"ok": not fails, "fails": fails[:3]}
+
+
+def collapse(item):
+    """utils.sparse_collapse on a Collapse.tla instance (sparse and dense label indicator)"""
+    light()
+    import scipy.sparse as sp
+    from vectorizers.utils import sparse_collapse
+    M = np.array(item["mat"], dtype=np.float64)
+    lab = np.array(["L%d" % v for v in item["lab"]])
+    exp = np.array(item["result"], dtype=np.float64).reshape(len(item["classes"]), len(item["classes"]))
+    fails = []
+    for sparse in (True, False):
+        if not sparse and len(item["classes"]) < 3:
+            continue      # observation (DESIGN 12.2): sparse=False with one or two labels raises AttributeError (ndarray.toarray)
+        R, cl = sparse_collapse(sp.csr_matrix(M), lab, sparse=sparse)
+        R = np.asarray(R.todense() if sp.issparse(R) else R, dtype=np.float64)
+        if list(cl) != ["L%d" % c for c in item["classes"]]:
+            fails.append({"sparse": sparse, "classes": [str(c) for c in cl]})
+        elif R.shape != exp.shape or not np.allclose(R, exp):
+            fails.append({"sparse": sparse, "got": R.tolist(), "expected": exp.tolist()})
+    return {"ok": not fails, "fails": fails[:2]}
